@@ -22,6 +22,20 @@ enum Got {
 
 /// The oracle for one byte string.
 pub fn check_string(input: &[u8], workload: &'static str, rep: &mut Report) {
+    // WHERE the bytes lie in memory is not part of the string: longer strings are decoded from a slice that starts at an odd
+    // (1..7 bytes past an 8-aligned) address — the middle of a receive buffer — instead of the start of an allocation
+    let shifted: Vec<u8>;
+    let input: &[u8] = if input.len() >= 24 && fnv(input) % 3 == 0 {
+        let mut buf = vec![0xA5u8; input.len() + 16];
+        let base = buf.as_ptr() as usize;
+        let off = (8 - base % 8) % 8 + 1 + (fnv(input) >> 8) as usize % 7;
+        buf[off..off + input.len()].copy_from_slice(input);
+        shifted = buf;
+        rep.count("strings_decoded_from_an_unaligned_slice");
+        &shifted[off..off + input.len()]
+    } else {
+        input
+    };
     let want = refs::dec(input);
     let r = catch(|| match Frame::from_bytes(input) {
         Ok(f) => Got::Ok {
@@ -729,6 +743,7 @@ pub fn run(ctx: &Ctx) -> Outcome {
         floor("accepted inputs with CRLF", report.get("accepted_with_crlf") > 0, report.get("accepted_with_crlf")),
         floor("inputs with more than 255 data pairs", report.get("more_than_255_data_pairs") > 0, report.get("more_than_255_data_pairs")),
         floor("frames whose fields coincide (all fields one value, for every value; checksum equal to another field or to a syntax byte)", report.get("coincidence_frames") == 2240, report.get("coincidence_frames")),
+        floor("longer strings decoded from a slice that starts at an odd address", report.get("strings_decoded_from_an_unaligned_slice") > 10_000, report.get("strings_decoded_from_an_unaligned_slice")),
         floor("100 kB inputs", report.get("huge_inputs") == 6, report.get("huge_inputs")),
         floor("strings also decoded through the stream entry point (Frame::read), some with a hard error mid-line", report.get("stream_reads") > 10_000 && report.get("stream_reads_with_hard_error") > 100, report.get("stream_reads")),
     ];
